@@ -344,7 +344,45 @@ def run(rep):
             rep.ok("encoding", "PaymentAmount::to_scalar", sample="enc(a) for a >= 0, -enc(|a|) for a < 0, exact on both branches")
         else:
             rep.fail("encoding", "PaymentAmount::to_scalar", "scalar encoding of an amount is not the ring map of the integer on every branch: %s" % (S.show(e)[:400] if e else None), site=ts.loc())
+    # ---- sweep: every hand-written method / trait impl of the four arithmetic types is total
+    rep.rule("total-sweep", "every hand-written inherent method or trait-impl method whose self type is Balance / CustomerBalance / MerchantBalance / PaymentAmount has all its panic obligations discharged for all inputs")
+    nsweep = 0
+    for b in sorted(prog.bodies.values(), key=lambda x: x.id):
+        if b.kind == "Closure" or b.from_expansion or b.desc.get("container") != "impl":
+            continue
+        st = b.desc.get("self_ty")
+        if st is None or st[0] != "adt" or st[1] not in (BAL, CUSTBAL, MERCHBAL, PAMT):
+            continue
+        nsweep += 1
+        S = Session(prog)
+        try:
+            S.eval(b)
+        except Exception as e:
+            rep.fail("total-sweep", short_name(b), "cannot reconstruct %s to discharge its panic obligations (fail closed): %r" % (b.path, e), site=b.loc())
+            continue
+        rep.fn(b)
+        lt = {arg(i): b.locals[i] for i in range(1, b.argc + 1)}
+        bad = []
+        for ob in S.eng.obligations:
+            okd, why, _ = discharge(S, ob, lt, invariants)
+            if not okd:
+                bad.append((ob, why))
+        pan = [p for p in S.eng.panics]
+        if not bad and not pan:
+            rep.ok("total-sweep", short_name(b), sample="%d obligation(s) discharged, no panicking callee" % len(S.eng.obligations), nontrivial=bool(S.eng.obligations))
+        for ob, why in bad:
+            rep.fail("total-sweep", "%s/%s" % (short_name(b), ob["kind"]), "%s can panic (%s): %s" % (b.path, ob["kind"], why), site=b.loc(ob.get("ln")))
+        for p_ in pan:
+            rep.fail("total-sweep", "%s/panic" % short_name(b), "%s can reach the panicking callee %s" % (b.path, p_["callee"]), site=b.loc(p_.get("ln")))
+    rep.floor("arithmetic-type methods swept", nsweep, 26)
     rep.assumptions += ["Scalar::from(u64) is the ring homomorphism Z -> F_q restricted to [0, 2^64) (bls12_381 contract)"]
+
+
+def short_name(b):
+    st = b.desc.get("self_ty")
+    owner = st[1].split("::")[-1] if st is not None and st[0] == "adt" else "?"
+    tr = b.desc.get("trait")
+    return "%s::%s%s" % (owner, b.desc.get("name"), (" (" + tr.split("::")[-1] + ")") if tr else "")
 
 
 def strip_enc(S, t, sign):
